@@ -25,14 +25,15 @@ const (
 )
 
 type prop struct {
-	Term, IRI string
-	Kind      string // lit | iri | node
-	DT        string // declared datatype, "" = none
-	Multi     bool
-	Child     *typ
-	Alt       *typ // second member type of a heterogeneous node array
-	Scoped    bool // the child's terms live in this property's scoped context
-	NoProp    bool // the property-scoped context says @propagate:false
+	Term, IRI  string
+	Kind       string // lit | iri | node
+	DT         string // declared datatype, "" = none
+	Multi      bool
+	Child      *typ
+	Alt        *typ   // second member type of a heterogeneous node array
+	Scoped     bool   // the child's terms live in this property's scoped context
+	NoProp     bool   // the property-scoped context says @propagate:false
+	DeclPrefix string // the property-scoped context declares this prefix; everything defined below uses it
 }
 
 type typ struct {
@@ -42,7 +43,10 @@ type typ struct {
 	Propagate  int               // 0: absent, 1: @propagate true, 2: @propagate false (explicit)
 	Shadow     map[string]tdefn  // extra (re)definitions placed in the type-scoped context
 	LocalCtx   map[string]string // term -> IRI redefined by a local @context inside nodes of this type
+	DeclPrefix string            // the (propagated) type-scoped context declares this prefix; everything defined below uses it
 	Second     *typ              // nodes of this type also carry this second (type-scoped) type
+	Third      *typ              // ... and this third one
+	Shared     *prop             // a term every type of the node defines in its scoped context, each with another IRI
 	Redecl     *redecl           // this type's scoped context re-declares ANOTHER type term with another scoped context
 }
 
@@ -50,6 +54,25 @@ type typ struct {
 // every @type value of a node up in the context active BEFORE the node's type-scoped contexts, so it has no effect
 // on the node that carries both types.
 type redecl struct{ Term, IRI, Field, FieldIRI string }
+
+// extras: the further types of a multi-typed node
+func (t *typ) extras() []*typ {
+	var out []*typ
+	if t.Second != nil {
+		out = append(out, t.Second)
+	}
+	if t.Third != nil {
+		out = append(out, t.Third)
+	}
+	return out
+}
+
+// typesSorted: all types of the node in the order JSON-LD applies their scoped contexts
+func (t *typ) typesSorted() []*typ {
+	all := append([]*typ{t}, t.extras()...)
+	sort.Slice(all, func(i, j int) bool { return all[i].Term < all[j].Term })
+	return all
+}
 
 // leaf: one field of the document reachable by a dotted path.
 type leaf struct {
@@ -97,6 +120,7 @@ type gdoc struct {
 type tdefn struct{ IRI, DT string }
 
 type gen struct {
+	localPfx string // prefix declared by an enclosing scoped context (in force while its definitions are emitted)
 	top      env
 	r        *rand.Rand
 	n        int
@@ -212,6 +236,44 @@ func (g *gen) heteroSchema() *typ {
 	return t
 }
 
+// prefixSchema: the iden3 schema-builder layout.  A prefix is declared only inside a scoped context (the
+// propagated type-scoped context of the root type, or a property-scoped context) and used by the
+// property-scoped contexts nested below it, at depth 2 and 3: Type.prop.nested(.nested2).
+func (g *gen) prefixSchema() *typ {
+	lit := func() *prop {
+		p := &prop{Term: g.term("p"), Kind: "lit", DT: []string{"", xsd + "string", xsd + "integer", vocab + "customType"}[g.r.Intn(4)], Multi: g.r.Intn(4) == 0}
+		p.IRI = vocab + p.Term
+		return p
+	}
+	plain := func(props ...*prop) *typ {
+		c := &typ{Term: g.term("T")}
+		c.IRI = vocab + c.Term
+		c.Props = props
+		return c
+	}
+	scopedNode := func(child *typ) *prop {
+		p := &prop{Term: g.term("p"), Kind: "node", Child: child, Scoped: true, Multi: g.r.Intn(4) == 0}
+		p.IRI = vocab + p.Term
+		return p
+	}
+	g.n++
+	pfx := fmt.Sprintf("dv%d-vocab", g.n)
+	deep := plain(lit(), lit())
+	mid := plain(lit(), scopedNode(deep)) // depth 3 below the root type
+	inner := scopedNode(mid)              // depth 2
+	t := &typ{Term: g.term("T"), TypeScoped: true}
+	t.IRI = vocab + t.Term
+	t.Props = []*prop{lit(), inner}
+	if g.r.Intn(2) == 0 {
+		// declared by the root type's scoped context, which propagates
+		t.DeclPrefix, t.Propagate = pfx, 1
+	} else {
+		// declared by the outer property-scoped context, used by the one nested in it
+		inner.DeclPrefix = pfx
+	}
+	return t
+}
+
 // dualSchema: a node carrying two type-scoped types; the scoped context of the type that sorts first
 // re-declares the term of the other type with a different scoped context (which must have no effect).
 func (g *gen) dualSchema() *typ {
@@ -236,6 +298,20 @@ func (g *gen) dualSchema() *typ {
 		first.Redecl = &redecl{Term: other.Term, IRI: other.IRI, Field: f.Term, FieldIRI: f.IRI + "_R"}
 	}
 	a.Second = b
+	all := []*typ{a, b}
+	if g.r.Intn(2) == 0 {
+		a.Third = mk()
+		all = append(all, a.Third)
+	}
+	if g.r.Intn(3) != 0 {
+		// every type defines the same term in its scoped context, each with another IRI (and maybe datatype)
+		shared := g.term("p")
+		for _, x := range all {
+			dt := []string{"", xsd + "string"}[g.r.Intn(2)]
+			x.Shadow = map[string]tdefn{shared: {vocab + shared + "_" + x.Term, dt}}
+		}
+		a.Shared = &prop{Term: shared, Kind: "lit"}
+	}
 	if g.r.Intn(2) == 0 {
 		return a
 	}
@@ -250,6 +326,9 @@ func (g *gen) dualSchema() *typ {
 }
 
 func (g *gen) id(iri string) string {
+	if g.localPfx != "" && strings.HasPrefix(iri, vocab) {
+		return g.localPfx + ":" + iri[len(vocab):]
+	}
 	if g.prefix && strings.HasPrefix(iri, vocab) {
 		return "ex:" + iri[len(vocab):]
 	}
@@ -273,10 +352,16 @@ func (g *gen) termDef(p *prop) any {
 	case "node":
 		if p.Scoped && p.Child != nil {
 			sc := map[string]any{}
+			old := g.localPfx
+			if p.DeclPrefix != "" {
+				g.localPfx = p.DeclPrefix
+				sc[p.DeclPrefix] = vocab
+			}
 			g.typeDefs(p.Child, sc)
 			if p.Alt != nil {
 				g.typeDefs(p.Alt, sc)
 			}
+			g.localPfx = old
 			if p.NoProp {
 				sc["@propagate"] = false
 			}
@@ -289,9 +374,15 @@ func (g *gen) termDef(p *prop) any {
 // typeDefs adds to out (a propagating context) what is needed for nodes of type t.
 func (g *gen) typeDefs(t *typ, out map[string]any) {
 	props := map[string]any{}
+	oldPfx := g.localPfx
+	if t.TypeScoped && t.DeclPrefix != "" {
+		g.localPfx = t.DeclPrefix
+		props[t.DeclPrefix] = vocab
+	}
 	for _, p := range t.Props {
 		props[p.Term] = g.termDef(p)
 	}
+	g.localPfx = oldPfx
 	if t.TypeScoped {
 		for k, sd := range t.Shadow {
 			if sd.DT != "" {
@@ -318,8 +409,8 @@ func (g *gen) typeDefs(t *typ, out map[string]any) {
 			out[k] = v
 		}
 	}
-	if t.Second != nil {
-		g.typeDefs(t.Second, out)
+	for _, x := range t.extras() {
+		g.typeDefs(x, out)
 	}
 	for _, p := range t.Props {
 		if p.Kind == "node" && !p.Scoped {
@@ -462,14 +553,28 @@ func (g *gen) node(t *typ, penv env, leak map[string]bool, docPath []string, par
 	}
 	obj[g.typeKey()] = t.Term
 	if t.Second != nil {
-		if g.r.Intn(2) == 0 {
-			obj[g.typeKey()] = []any{t.Term, t.Second.Term}
-		} else {
-			obj[g.typeKey()] = []any{t.Second.Term, t.Term}
+		// the types are written in any order; JSON-LD applies their scoped contexts in lexicographic order
+		var written []any
+		for _, x := range append([]*typ{t}, t.extras()...) {
+			written = append(written, x.Term)
+			if x.Redecl != nil {
+				g.features["type-term-redeclared"] = true
+			}
 		}
-		g.features["two-types"] = true
-		if t.Redecl != nil || t.Second.Redecl != nil {
-			g.features["type-term-redeclared"] = true
+		g.r.Shuffle(len(written), func(i, j int) { written[i], written[j] = written[j], written[i] })
+		obj[g.typeKey()] = written
+		g.features[fmt.Sprintf("types:%d", len(written))] = true
+		inOrder := true
+		for i := 1; i < len(written); i++ {
+			if written[i-1].(string) > written[i].(string) {
+				inOrder = false
+			}
+		}
+		if !inOrder {
+			g.features["types-written-unsorted"] = true
+		}
+		if t.Shared != nil {
+			g.features["types-conflicting-term"] = true
 		}
 	}
 	if t.LocalCtx != nil {
@@ -492,6 +597,14 @@ func (g *gen) node(t *typ, penv env, leak map[string]bool, docPath []string, par
 			myLeak[k] = true
 		}
 	}
+	if t.TypeScoped && t.DeclPrefix != "" {
+		g.features["prefix-declared-in-type-scoped"] = true
+	}
+	for _, p := range t.Props {
+		if p.DeclPrefix != "" {
+			g.features["prefix-declared-in-property-scoped"] = true
+		}
+	}
 	if t.TypeScoped {
 		g.features["type-scoped"] = true
 		ts := map[string]tdefn{}
@@ -502,8 +615,14 @@ func (g *gen) node(t *typ, penv env, leak map[string]bool, docPath []string, par
 			ts[k] = v
 		}
 		if t.Second != nil {
-			for _, p := range t.Second.Props {
-				ts[p.Term] = propDefn(p)
+			// all types of the node, in the order their scoped contexts are applied: the last one wins
+			for _, x := range t.typesSorted() {
+				for _, p := range x.Props {
+					ts[p.Term] = propDefn(p)
+				}
+				for k, v := range x.Shadow {
+					ts[k] = v
+				}
 			}
 		}
 		active = penv.with(ts)
@@ -520,8 +639,8 @@ func (g *gen) node(t *typ, penv env, leak map[string]bool, docPath []string, par
 		}
 	}
 	g.nodes = append(g.nodes, nodeInfo{DocPath: cp(docPath), Parts: cp(parts), TypeTerm: t.Term, TypeIRI: t.IRI, IsType: t.TypeScoped, TopVisible: topVisible, Multi: t.Second != nil})
-	if t.Second != nil {
-		g.nodes = append(g.nodes, nodeInfo{DocPath: cp(docPath), Parts: cp(parts), TypeTerm: t.Second.Term, TypeIRI: t.Second.IRI, IsType: true, TopVisible: topVisible, Multi: true})
+	for _, x := range t.extras() {
+		g.nodes = append(g.nodes, nodeInfo{DocPath: cp(docPath), Parts: cp(parts), TypeTerm: x.Term, TypeIRI: x.IRI, IsType: true, TopVisible: topVisible, Multi: true})
 	}
 	// context-only resolvers (type term + field path): they can start at a type term defined
 	// at the top level of the context document and walk through properties (incl. their
@@ -559,14 +678,27 @@ func (g *gen) node(t *typ, penv env, leak map[string]bool, docPath []string, par
 	allProps := t.Props
 	nOwn := len(t.Props)
 	firstRoot := myRoot
+	owner := map[*prop]*typ{}
 	if t.Second != nil {
-		allProps = append(append([]*prop{}, t.Props...), t.Second.Props...)
+		allProps = append([]*prop{}, t.Props...)
+		for _, x := range t.extras() {
+			for _, p := range x.Props {
+				owner[p] = x
+				allProps = append(allProps, p)
+			}
+		}
+		if t.Shared != nil {
+			// the conflicting term: the definition of the type applied LAST is the one in force
+			sorted := t.typesSorted()
+			owner[t.Shared] = sorted[len(sorted)-1]
+			allProps = append(allProps, t.Shared)
+		}
 	}
 	for pi, p := range allProps {
 		myRoot = firstRoot
-		if pi >= nOwn {
-			// a field of the second type: the context-only resolvers start at that type's term
-			myRoot = ctxRoot{typeTerm: t.Second.Term, typeIRI: t.Second.IRI, prefixLen: len(parts), docLen: len(docPath), ok: topVisible && t.LocalCtx == nil}
+		if x := owner[p]; pi >= nOwn && x != nil && x != t {
+			// a field of another type of the node: the context-only resolvers start at that type's term
+			myRoot = ctxRoot{typeTerm: x.Term, typeIRI: x.IRI, prefixLen: len(parts), docLen: len(docPath), ok: topVisible && t.LocalCtx == nil}
 		}
 		iri := active[p.Term].IRI
 		declared := active[p.Term].DT
@@ -702,9 +834,11 @@ func (g *gen) randomDoc() *gdoc {
 	g.alias = g.r.Intn(3) == 0
 	g.prefix = g.r.Intn(3) == 0
 	var t *typ
-	kind := g.r.Intn(13)
+	kind := g.r.Intn(15)
 	switch {
-	case kind == 12:
+	case kind == 13:
+		t = g.prefixSchema()
+	case kind == 12 || kind == 14:
 		t = g.dualSchema()
 	case kind < 6:
 		t = g.schema(1+g.r.Intn(3), "")
